@@ -105,6 +105,15 @@ def proto_check(ctx, module, theorems, sections, extra_quick, extra_thorough, pr
                         violation(ctx, "trace validation: the durability machine Feox.Proto.Dur rejects an event the implementation performed (%s) — "
                                   "acknowledgement / retirement / publication order differs from the protocol the C02/C09 theorems are about" % op,
                                   "".join(l + "\n" for l in blk), no_input=(nfail == 0))
+                    elif op.startswith("space "):
+                        s0 = idx
+                        while s0 > 0 and not o["ops"][s0].startswith("space new"):
+                            s0 -= 1
+                        blk = [l for l in o["ops"][s0:idx + 1] if l.startswith("space ")]
+                        violation(ctx, "trace validation: the allocation / publication / release events of the running store are not a run of the bookkeeping model "
+                                  "(Feox.C05.accept: `%s` answered `%s`, expected `%s`) — an extent handed out where the model's allocator would not, a release that is not a union of held extents, "
+                                  "or a different free list at the acknowledged flush" % (op, mo[:200], im[:120]),
+                                  "".join(l + "\n" for l in blk) + "# model: %s\n# store: %s\n" % (mo, im), no_input=(nfail == 0))
                     elif op.startswith("txn "):
                         s0 = idx
                         while s0 > 0 and not (o["ops"][s0].startswith("txn new") or o["ops"][s0].startswith("txn resume")):
